@@ -263,7 +263,9 @@ def check(codec, d, family, c=None, variant=0, wseed=0):
         problems.append(('schema-' + clause, detail))
       if d[0] in ('TD', 'TL') and codec != 'pickle':
         count('root_spec_checks')
-        if back.value_spec is None or back.value_spec != v.value_spec:
+        if twin.value_spec != v.value_spec:
+          count('root_spec_equality_not_reflexive_on_rebuild')
+        elif back.value_spec is None or back.value_spec != v.value_spec:
           problems.append(('schema-spec-lost', f'value_spec {v.value_spec!r:.100} -> '
                            f'{back.value_spec!r:.100}'))
       # an invalid write must still be rejected
@@ -300,6 +302,21 @@ def check(codec, d, family, c=None, variant=0, wseed=0):
   return first_per_clause(problems)
 
 
+def group(clause):
+  return 'differs' if clause in ('type-differs', 'not-equal') else clause
+
+
+def family_of(d, family):
+  """Shrinking may turn e.g. a spec into one of its default values."""
+  if d[0] in ('TD', 'TL'):
+    return 'typed-root'
+  if d[0] in ('v', 'D', 'd', 'L', 'l', 't', 'leaf'):
+    return 'container'
+  if d[0] in ('O', 'P', 'F', 'H'):
+    return 'object'
+  return family
+
+
 def first_per_clause(problems):
   first = {}
   for clause, detail in problems:
@@ -327,13 +344,18 @@ def value_case(ctx, i):
     if problems and codec == 'json':
       failed_json = True
     for clause, detail in problems:
-      def fails(cand, clause=clause, codec=codec):
+      def observed(cand, clause=clause, codec=codec):
+        """Clauses of the same group that `cand` shows with this codec."""
         try:
-          return any(cl == clause for cl, _ in check(codec, cand, family, None, variant, wseed))
+          return [cl for cl, _ in check(codec, cand, family_of(cand, family), None, variant,
+                                        wseed) if group(cl) == group(clause)]
         except Exception:  # pylint: disable=broad-except
-          return False
-      small = S.minimise(d, fails, budget=120)
+          return []
+      small = S.minimise(d, observed, budget=120)
       c['minimisations'] += 1
+      # inside an opaque member a changed type shows up as inequality: the
+      # clause reported is the one the minimal value shows by itself
+      clause = (observed(small) or [clause])[0]
       ctx.violation(
           clause, f'{codec}/{S.kind(small)}',
           f'{detail}\nvalue: {S.show(d):.600}\nminimal: {S.show(small):.300}',
